@@ -97,7 +97,7 @@ def httpPatterns (r : Routes) : List Pat :=
   r.flatMap (fun kv =>
     match kv.2 with
     | [] => []
-    | h :: _ => h.patterns.map (fun va => ⟨va.1, withSlash va.2, h.name, h.fid⟩))
+    | h :: _ => h.patterns.map (fun va => ⟨va.1, withSlash va.2, h.msgName, h.fid⟩))
 
 /-- insert into a list that is sorted by descending address -/
 def insertDesc (p : Pat) : List Pat → List Pat
